@@ -1,5 +1,5 @@
 #!/bin/bash
-# usage: trymut.sh <patch> <PROP>...   — applies a patch to /repo, runs the checks, restores /repo
+# usage: trymut.sh <patch> <PROP>...   — applies a patch to /repo, runs the checks, restores /repo and the evidence
 set -u
 patch=$1; shift
 cd /repo || exit 2
@@ -7,3 +7,4 @@ if ! git diff --quiet; then echo "/repo dirty"; exit 2; fi
 git apply "$patch" || { echo "PATCH-FAILED"; exit 2; }
 for p in "$@"; do (cd /verif && ./check $p 2>&1 | tail -12); done
 git -C /repo checkout -- .
+for p in "$@"; do (cd /verif && ./check $p >/dev/null 2>&1); done
